@@ -1,7 +1,9 @@
 '''what a shard reports: counters, distinct-hash sets, samples, violations'''
 
+import contextlib
 import hashlib
 import json
+import signal
 import time
 
 
@@ -56,3 +58,23 @@ class Result:
             'inconclusive': self.inconclusive,
             'extra': self.extra,
         }
+
+
+class CaseTimeout(Exception):
+    pass
+
+
+@contextlib.contextmanager
+def deadline(seconds):
+    '''per-case watchdog (main thread only): raises CaseTimeout inside the case'''
+
+    def handler(_sig, _frm):
+        raise CaseTimeout(f'case exceeded {seconds}s')
+
+    old = signal.signal(signal.SIGALRM, handler)
+    signal.setitimer(signal.ITIMER_REAL, seconds)
+    try:
+        yield
+    finally:
+        signal.setitimer(signal.ITIMER_REAL, 0)
+        signal.signal(signal.SIGALRM, old)
